@@ -588,7 +588,14 @@ def _fixed_layout_values_match(template, program, atol=1e-5):
             return False
 
         for x, y in zip(n1["args"], n2["args"]):
-            if isinstance(x, numeric) and isinstance(y, numeric) and abs(x - y) > atol:
+            if not isinstance(x, numeric):
+                continue
+
+            if isinstance(y, str) and y in program.variables:
+                # array parameter (e.g., of a time-domain program): every value must be the fixed one
+                y = np.asarray(program.variables[y])
+
+            if isinstance(y, numeric + (np.ndarray,)) and np.any(np.abs(y - x) > atol):
                 return False
 
         return True
